@@ -509,4 +509,51 @@ def lck_pair(ctx: Ctx) -> RuleResult:
     return r
 
 
-RULES = {"LCK-GLOBALS": lck_globals, "LCK-SET": lck_set, "LCK-PRED": lck_pred, "LCK-RESET": lck_reset, "LCK-PAIR": lck_pair}
+def lck_rebind(ctx: Ctx) -> RuleResult:
+    """The build lock is one object for the life of the process: nothing re-binds the module-level name.
+
+    A thread that holds the lock (a description in progress) and a thread that takes the lock later must contend for the same
+    object; a function that assigns a fresh Lock to the name lets the second builder in while the first is still building."""
+    r = RuleResult("LCK-REBIND")
+    b = BuildState(ctx)
+    hits = []
+    for f in pkg_funcs(ctx):
+        globs = {x for n in iter_own_nodes(f.node) if isinstance(n, ast.Global) for x in n.names}
+        for n in iter_own_nodes(f.node):
+            tgts = n.targets if isinstance(n, ast.Assign) else ([n.target] if isinstance(n, (ast.AnnAssign, ast.AugAssign)) else [])
+            for t in tgts:
+                if isinstance(t, ast.Name) and t.id == b.lock and t.id in globs and f.module is b.mod:
+                    hits.append((f, n))
+                elif isinstance(t, ast.Attribute) and t.attr == b.lock:
+                    q = b.resolve(f, t)
+                    if q is not None and q[1] == b.lock:
+                        hits.append((f, n))
+            if isinstance(n, ast.Call) and dotted(n.func) == "setattr" and len(n.args) == 3 and isinstance(n.args[1], ast.Constant) and n.args[1].value == b.lock:
+                hits.append((f, n))
+    # module-level re-binding after the definition
+    defs = [st for st in b.mod.tree.body if isinstance(st, (ast.Assign, ast.AnnAssign))
+            and any(isinstance(t, ast.Name) and t.id == b.lock for t in (st.targets if isinstance(st, ast.Assign) else [st.target]))]
+    r.ob(len(defs) == 1 and not hits, {"lock": b.lock_q, "bound at module level": len(defs), "re-bound in functions": [f.short for f, _ in hits]})
+    for f, n in hits:
+        # a hook that runs in a forked CHILD only starts a new process image: the parent's builders never see it
+        child_only = False
+        for m in ctx.P.modules.values():
+            for c in ast.walk(m.tree):
+                if isinstance(c, ast.Call) and (dotted(c.func) or "").endswith("register_at_fork"):
+                    roles = {k.arg for k in c.keywords if dotted(k.value) == f.name}
+                    if roles and roles <= {"after_in_child"}:
+                        child_only = True
+                    elif roles:
+                        child_only = False
+                        break
+        if child_only:
+            continue
+        r.violate(f"{f.short}: the build lock {b.lock} is re-bound to a new object", f.loc(n),
+                  "a description in progress holds the old lock object; the next builder takes the new, free one: two descriptions "
+                  "overlap and write the same registry (and the owner of the first is reset under it)", norm_src(n))
+    if len(defs) > 1:
+        r.violate(f"{b.mod.name}: the build lock {b.lock} is bound {len(defs)} times at module level", f"{b.mod.rel}:{defs[1].lineno}", "", None)
+    return r
+
+
+RULES = {"LCK-REBIND": lck_rebind, "LCK-GLOBALS": lck_globals, "LCK-SET": lck_set, "LCK-PRED": lck_pred, "LCK-RESET": lck_reset, "LCK-PAIR": lck_pair}
